@@ -63,6 +63,8 @@ func inPkgs(path string, list []string) bool {
 }
 
 type facts struct {
+	lower  map[string]bool // index expression known >= 0
+	upper  map[string]bool // "idx<table": index known < len(table)
 	nonnil map[string]bool
 	isnil  map[string]bool
 	minlen map[string]int
@@ -70,7 +72,7 @@ type facts struct {
 }
 
 func newFacts() *facts {
-	return &facts{map[string]bool{}, map[string]bool{}, map[string]int{}, map[string]bool{}}
+	return &facts{map[string]bool{}, map[string]bool{}, map[string]bool{}, map[string]bool{}, map[string]int{}, map[string]bool{}}
 }
 
 func (f *facts) clone() *facts {
@@ -86,6 +88,12 @@ func (f *facts) clone() *facts {
 	}
 	for k, v := range f.typeis {
 		n.typeis[k] = v
+	}
+	for k, v := range f.lower {
+		n.lower[k] = v
+	}
+	for k, v := range f.upper {
+		n.upper[k] = v
 	}
 	return n
 }
@@ -114,6 +122,16 @@ func meet(a, b *facts) *facts {
 	for k := range a.typeis {
 		if b.typeis[k] {
 			n.typeis[k] = true
+		}
+	}
+	for k := range a.lower {
+		if b.lower[k] {
+			n.lower[k] = true
+		}
+	}
+	for k := range a.upper {
+		if b.upper[k] {
+			n.upper[k] = true
 		}
 	}
 	return n
@@ -1118,6 +1136,9 @@ func (w *nilWalker) cond(e ast.Expr, f *facts) (*facts, *facts) {
 			if t, fl, ok := w.lenCond(x, f); ok {
 				return t, fl
 			}
+			if t, fl, ok := w.boundCond(x, f); ok {
+				return t, fl
+			}
 			return f, f
 		}
 	}
@@ -1294,6 +1315,7 @@ func (w *nilWalker) expr(e ast.Expr, f *facts) {
 	case *ast.IndexExpr:
 		w.expr(x.X, f)
 		w.expr(x.Index, f)
+		w.tableIndex(x, f)
 		if t := info.TypeOf(x.X); t != nil {
 			if _, isSlice := t.Underlying().(*types.Slice); isSlice {
 				if v, ok := constOf(w.d.pkg, x.Index); ok && v.isInt() {
@@ -1496,5 +1518,115 @@ func (e *nilEngine) emit(rule string) {
 		} else {
 			e.c.bad(rule, construct, e.c.P.Pos(r.pos), r.msg)
 		}
+	}
+}
+
+// stripConv removes integer conversions around an index expression.
+func (w *nilWalker) stripConv(e ast.Expr) ast.Expr {
+	for {
+		switch x := e.(type) {
+		case *ast.ParenExpr:
+			e = x.X
+			continue
+		case *ast.CallExpr:
+			if tv, ok := w.d.pkg.TypesInfo.Types[x.Fun]; ok && tv.IsType() && len(x.Args) == 1 {
+				e = x.Args[0]
+				continue
+			}
+		}
+		return e
+	}
+}
+
+// boundCond learns index bounds: i < len(T), i >= len(T), i < 0, i >= 0 (and mirrored forms).
+func (w *nilWalker) boundCond(x *ast.BinaryExpr, f *facts) (*facts, *facts, bool) {
+	a, b, op := x.X, x.Y, x.Op
+	ia := types.ExprString(w.stripConv(a))
+	t, fl := f.clone(), f.clone()
+	// comparison with the constant 0
+	if v, ok := constOf(w.d.pkg, b); ok && v.isInt() && v.int() == 0 {
+		switch op {
+		case token.GEQ:
+			t.lower[ia] = true
+		case token.LSS:
+			fl.lower[ia] = true
+		case token.GTR:
+			t.lower[ia] = true
+		default:
+			return nil, nil, false
+		}
+		return t, fl, true
+	}
+	// comparison with len(T)
+	if ce, ok := b.(*ast.CallExpr); ok && len(ce.Args) == 1 {
+		if id, ok := ce.Fun.(*ast.Ident); ok && id.Name == "len" {
+			key := ia + "<" + types.ExprString(ce.Args[0])
+			switch op {
+			case token.LSS:
+				t.upper[key] = true
+			case token.GEQ:
+				fl.upper[key] = true
+			default:
+				return nil, nil, false
+			}
+			return t, fl, true
+		}
+	}
+	return nil, nil, false
+}
+
+// tableIndex: a non-constant index into a package-level array/slice needs both bounds, unless
+// the index is unsigned (lower bound) or the loop index of a range over the same table.
+func (w *nilWalker) tableIndex(x *ast.IndexExpr, f *facts) {
+	info := w.d.pkg.TypesInfo
+	var tv *types.Var
+	switch b := x.X.(type) {
+	case *ast.Ident:
+		tv, _ = info.Uses[b].(*types.Var)
+	case *ast.SelectorExpr:
+		if info.Selections[b] == nil {
+			tv, _ = info.Uses[b.Sel].(*types.Var)
+		}
+	}
+	if tv == nil || tv.Pkg() == nil || tv.Parent() != tv.Pkg().Scope() {
+		return
+	}
+	switch tv.Type().Underlying().(type) {
+	case *types.Array, *types.Slice:
+	default:
+		return
+	}
+	if _, isConst := constOf(w.d.pkg, x.Index); isConst {
+		return
+	}
+	if !w.record || strings.HasSuffix(w.e.c.P.Fset.Position(x.Pos()).Filename, ".pb.go") {
+		return
+	}
+	idx := w.stripConv(x.Index)
+	is := types.ExprString(idx)
+	// range index over the same table
+	if o := objOf(w.d.pkg, idx); o != nil {
+		for _, y := range enclosing(w.d.fd.Body, x) {
+			if rs, ok := y.(*ast.RangeStmt); ok && objOf(w.d.pkg, rs.Key) == o && types.ExprString(rs.X) == types.ExprString(x.X) {
+				return
+			}
+		}
+	}
+	lowerOK := f.lower[is]
+	if t := info.TypeOf(idx); t != nil {
+		if b, ok := t.Underlying().(*types.Basic); ok && b.Info()&types.IsUnsigned != 0 {
+			lowerOK = true
+		}
+	}
+	upperOK := f.upper[is+"<"+types.ExprString(x.X)]
+	key := w.d.name + "#index:" + types.ExprString(x.X) + "[" + is + "]"
+	r := w.e.reports[key]
+	if r == nil {
+		r = &derefReport{fn: w.d.name, path: "index:" + types.ExprString(x.X) + "[" + is + "]", pos: x.Pos(), kind: "table index", ok: true}
+		w.e.reports[key] = r
+	}
+	if !(lowerOK && upperOK) && r.ok {
+		r.ok = false
+		r.msg = fmt.Sprintf("%s indexes the package-level table %s with %s, which is not bounded on both sides (lower bound known: %v, upper bound known: %v): an enum number outside the table, e.g. a negative one decoded from protobuf, panics with index out of range", types.ExprString(x), types.ExprString(x.X), is, lowerOK, upperOK)
 	}
 }
